@@ -13,7 +13,10 @@
    Every behaviour has a focus, drawn with its initial state: the configured one
    ("log": C07, truncation / retention / reopen; "dup": C08, collisions / reclaim / reopen)
    or "exact" (compat surface: chains of exact proposals, their retries, suffix
-   replacement, interleaved with everything else at a lower rate). *)
+   replacement, interleaved with everything else at a lower rate), or, with the "dup" focus
+   configured, "cancel": a scripted opening (CancelOps below: stored keys, database reopen, an
+   append whose context is cancelled at every point of the filter rebuild, then a duplicate of
+   every stored key) followed by "dup" steps. *)
 EXTENDS MessageLogX, Json
 CONSTANTS Depth,
           Focus   \* "log" or "dup"
@@ -26,7 +29,7 @@ SimProbePids  == SetToSortSeq(Pids, <)
 
 SimInit ==
   /\ InitX
-  /\ focus \in {Focus, "exact"}
+  /\ focus \in {Focus, "exact"} \cup (IF Focus = "dup" THEN {"cancel"} ELSE {})
   /\ (focus = "exact" => cfg.surface = "compat")
   /\ hist = << [ev |-> ev, st |-> CurX] >>
 
@@ -48,7 +51,7 @@ Seq1(r)    == << r >>
 Clean2(c, r1) == {r \in CleanRecs(c) : r.id # r1.id /\ (HasKey(r) /\ HasKey(r1) => KeyOf(r) # KeyOf(r1))}
 
 Exact == focus = "exact"
-Dup   == focus = "dup"
+Dup   == focus \in {"dup", "cancel"}
 \* in the exact focus everything that is not about proposals happens at a lower rate
 Thin(n) == ~Exact \/ RandomElement(1..n) = 1
 
@@ -219,6 +222,163 @@ ExactOps ==
   \/ Exact /\ OpenCh # {} /\ \E c \in Pick(OpenCh) : DOMAIN prop[c] # {} /\ CleanRecs(c) # {} /\
         \E m \in Pick(Modes), r \in Pick(CleanRecs(c)) : RandomElement(1..3) = 1 /\ XAppend(c, m, 0, Seq1(r))
 
+\* ---- several exact items in ONE StoreAppendBatch call (compat surface)
+KeyedClean(c) == {r \in CleanRecs(c) : HasKey(r)}
+\* a clean record that shares neither id nor key with the records of R
+CleanBut(c, R) == {r \in CleanRecs(c) : \A x \in R : r.id # x.id /\ (HasKey(r) /\ HasKey(x) => KeyOf(r) # KeyOf(x))}
+Whole(c) == {q \in DOMAIN prop[c] : \A s \in (prop[c][q].base + 1)..prop[c][q].last : s \in RowSeqs(c)}
+
+\* channels whose log end is the end of a proposal (a chain can be extended), preferred
+TipCh == {c \in OpenCh : Leo(c) \in Ends(c)}
+BCh   == IF TipCh # {} /\ RandomElement(1..6) > 1 THEN TipCh ELSE OpenCh
+
+BatchOps ==
+  \* a pipelined chain of two new proposals (the second chained behind the first), the second possibly with a committed value
+  \/ BCh # {} /\ \E c \in Pick(BCh) : CleanRecs(c) # {} /\ Cardinality(FreePids(c)) >= 2 /\ Room(c, 2) /\
+        \E q1 \in Pick(FreePids(c)), r1 \in Pick(CleanRecs(c)), m \in Pick({"strict", "alloc"}) : CleanBut(c, {r1}) # {} /\
+          \E q2 \in Pick(FreePids(c) \ {q1}), r2 \in Pick(CleanBut(c, {r1})), hw \in Pick({0, 0, Leo(c) + 1, Leo(c) + 2}), hw1 \in Pick({0, 0, Leo(c) + 1}) :
+             ExBatch(<< BItem(c, q1, Leo(c), Seq1(r1), m, hw1), BItem(c, q2, Leo(c) + 1, Seq1(r2), m, hw) >>)
+  \* ... of three, the last one with one or two records
+  \/ BCh # {} /\ \E c \in Pick(BCh) : CleanRecs(c) # {} /\ Cardinality(FreePids(c)) >= 3 /\ Room(c, 4) /\
+        \E q1 \in Pick(FreePids(c)), r1 \in Pick(CleanRecs(c)), m \in Pick({"strict", "alloc"}) : CleanBut(c, {r1}) # {} /\
+          \E q2 \in Pick(FreePids(c) \ {q1}), r2 \in Pick(CleanBut(c, {r1})) : CleanBut(c, {r1, r2}) # {} /\
+            \E q3 \in Pick(FreePids(c) \ {q1, q2}), r3 \in Pick(CleanBut(c, {r1, r2})) :
+               \E l3 \in Pick({Seq1(r3)} \cup {<< r3, x >> : x \in CleanBut(c, {r1, r2, r3})}),
+                  hw1 \in Pick({0, 0, Leo(c) + 1}), hw2 \in Pick({0, Leo(c) + 1, Leo(c) + 2}), hw3 \in Pick({0, 0, Leo(c) + 2, Leo(c) + 3}) :
+                  ExBatch(<< BItem(c, q1, Leo(c), Seq1(r1), m, hw1), BItem(c, q2, Leo(c) + 1, Seq1(r2), m, hw2),
+                             BItem(c, q3, Leo(c) + 2, l3, m, hw3) >>)
+  \* C08: the second pipelined proposal repeats the (sender, client number) of the first under another id,
+  \* in strict and in server-allocated-id mode; sometimes a clean third one chained behind the first / behind the second
+  \/ BCh # {} /\ \E c \in Pick(BCh) : KeyedClean(c) # {} /\ Cardinality(FreePids(c)) >= 3 /\ Room(c, 3) /\
+        \E q1 \in Pick(FreePids(c)), r1 \in Pick(KeyedClean(c)), m \in Pick({"strict", "alloc"}) : Fresh \ {r1.id} # {} /\
+          \E q2 \in Pick(FreePids(c) \ {q1}), id2 \in Pick(Fresh \ {r1.id}), p2 \in Pick(Pays), third \in Pick({0, 0, 1, 2}) :
+             LET i1 == BItem(c, q1, Leo(c), Seq1(r1), m, 0)
+                 r2 == [id |-> id2, from |-> r1.from, no |-> r1.no, p |-> p2]
+                 i2 == BItem(c, q2, Leo(c) + 1, Seq1(r2), m, 0)
+                 R3 == CleanBut(c, {r1, r2})
+             IN IF third = 0 \/ R3 = {} THEN ExBatch(<< i1, i2 >>)
+                ELSE \E q3 \in Pick(FreePids(c) \ {q1, q2}), r3 \in Pick(R3) :
+                        ExBatch(<< i1, i2, BItem(c, q3, Leo(c) + third, Seq1(r3), m, 0) >>)
+  \* C08: the second pipelined proposal repeats the message id of the first
+  \/ BCh # {} /\ \E c \in Pick(BCh) : CleanRecs(c) # {} /\ Cardinality(FreePids(c)) >= 2 /\ Room(c, 2) /\
+        \E q1 \in Pick(FreePids(c)), r1 \in Pick(CleanRecs(c)), m \in Pick({"strict", "alloc"}) : CleanBut(c, {r1}) # {} /\
+          \E q2 \in Pick(FreePids(c) \ {q1}), r2 \in Pick(CleanBut(c, {r1})) :
+             ExBatch(<< BItem(c, q1, Leo(c), Seq1(r1), m, 0), BItem(c, q2, Leo(c) + 1, Seq1([r2 EXCEPT !.id = r1.id]), m, 0) >>)
+  \* a proposal and its own retry in one call, the retry with or without a committed value; sometimes a
+  \* further proposal chained behind, before or after the retry
+  \/ BCh # {} /\ \E c \in Pick(BCh) : CleanRecs(c) # {} /\ Cardinality(FreePids(c)) >= 2 /\ Room(c, 3) /\
+        \E q1 \in Pick(FreePids(c)), r1 \in Pick(CleanRecs(c)), m \in Pick({"strict", "alloc"}), more \in Pick({0, 0, 1, 2}) :
+          \E l1 \in Pick({Seq1(r1)} \cup {<< r1, x >> : x \in CleanBut(c, {r1})}) :
+            \E rhw \in Pick({0, 0, Leo(c) + 1, Leo(c) + Len(l1)}) :
+              LET i1 == BItem(c, q1, Leo(c), l1, m, 0)
+                  rt == BItem(c, q1, Leo(c), l1, m, rhw)
+                  R3 == CleanBut(c, {l1[i] : i \in 1..Len(l1)})
+              IN IF more = 0 \/ R3 = {} THEN ExBatch(<< i1, rt >>)
+                 ELSE \E q2 \in Pick(FreePids(c) \ {q1}), r3 \in Pick(R3) :
+                        LET nx == BItem(c, q2, Leo(c) + Len(l1), Seq1(r3), m, 0)
+                        IN IF more = 1 THEN ExBatch(<< i1, rt, nx >>) ELSE ExBatch(<< i1, nx, rt >>)
+  \* items of two channels in one call (one physical commit), one of them possibly a chain of two
+  \/ Cardinality(OpenCh) >= 2 /\ \E c \in Pick(OpenCh) : \E d \in Pick(OpenCh \ {c}) :
+        CleanRecs(c) # {} /\ CleanRecs(d) # {} /\ FreePids(c) # {} /\ FreePids(d) # {} /\ Room(c, 2) /\ Room(d, 1) /\
+        \E q1 \in Pick(FreePids(c)), r1 \in Pick(CleanRecs(c)), m \in Pick({"strict", "alloc"}), m2 \in Pick({"strict", "alloc"}) :
+          LET RD == {r \in CleanRecs(d) : r.id # r1.id} IN RD # {} /\
+          \E qd \in Pick(FreePids(d)), rd \in Pick(RD), hw \in Pick({0, 0, Leo(c) + 1}), chain \in Pick({TRUE, FALSE}) :
+             LET i1 == BItem(c, q1, Leo(c), Seq1(r1), m, hw)
+                 id == BItem(d, qd, Leo(d), Seq1(rd), m2, 0)
+                 R2 == {r \in CleanBut(c, {r1}) : r.id # rd.id}
+             IN IF chain /\ R2 # {} /\ FreePids(c) \ {q1} # {}
+                  THEN \E q2 \in Pick(FreePids(c) \ {q1}), r2 \in Pick(R2) :
+                          ExBatch(<< i1, id, BItem(c, q2, Leo(c) + 1, Seq1(r2), m, 0) >>)
+                  ELSE ExBatch(<< i1, id >>)
+  \* the replay of a stored proposal (possibly raising the watermark) next to a new proposal, in either order
+  \/ BCh # {} /\ \E c \in Pick(BCh) : Whole(c) # {} /\ CleanRecs(c) # {} /\ FreePids(c) # {} /\ Room(c, 1) /\
+        \E q \in Pick(Whole(c)), q1 \in Pick(FreePids(c)), r1 \in Pick(CleanRecs(c)), m \in Pick({"strict", "alloc"}), first \in Pick({TRUE, FALSE}) :
+          \E hw \in Pick({0} \cup (IF CkHW(c) < prop[c][q].last THEN (CkHW(c) + 1)..prop[c][q].last ELSE {})) :
+             LET old == BItem(c, q, prop[c][q].base, prop[c][q].recs, "strict", hw)
+                 new == BItem(c, q1, Leo(c), Seq1(r1), m, 0)
+             IN IF first THEN ExBatch(<< old, new >>) ELSE ExBatch(<< new, old >>)
+  \* refused shapes: a gap behind the first item, the first item's command again with other content, a gap first
+  \/ BCh # {} /\ \E c \in Pick(BCh) : CleanRecs(c) # {} /\ Cardinality(FreePids(c)) >= 2 /\ Room(c, 3) /\
+        \E q1 \in Pick(FreePids(c)), r1 \in Pick(CleanRecs(c)), m \in Pick({"strict", "alloc"}), shape \in Pick({1, 2, 3, 4}) : CleanBut(c, {r1}) # {} /\
+          \E q2 \in Pick(FreePids(c) \ {q1}), r2 \in Pick(CleanBut(c, {r1})) :
+             CASE shape = 1 -> ExBatch(<< BItem(c, q1, Leo(c), Seq1(r1), m, 0), BItem(c, q2, Leo(c) + 2, Seq1(r2), m, 0) >>)
+               [] shape = 2 -> ExBatch(<< BItem(c, q1, Leo(c), Seq1(r1), m, 0), BItem(c, q1, Leo(c), Seq1(r2), m, 0) >>)
+               [] shape = 3 -> ExBatch(<< BItem(c, q1, Leo(c), Seq1(r1), m, 0), BItem(c, q1, Leo(c) + 1, Seq1(r2), m, 0) >>)
+               [] shape = 4 -> ExBatch(<< BItem(c, q1, Leo(c) + 1, Seq1(r1), m, 0), BItem(c, q2, Leo(c), Seq1(r2), m, 0) >>)
+  \* C08: a stored key under a fresh id in the first or in the second of two pipelined items
+  \/ BCh # {} /\ Fresh # {} /\ \E c \in Pick(BCh) : Keyed(c) # {} /\ CleanRecs(c) # {} /\ Cardinality(FreePids(c)) >= 2 /\ Room(c, 2) /\
+        \E q1 \in Pick(FreePids(c)), k \in Pick(Keyed(c)), id \in Pick(Fresh), p \in Pick(Pays), m \in Pick({"strict", "alloc"}), second \in Pick({TRUE, FALSE}) :
+          LET rk == [id |-> id, from |-> k.from, no |-> k.no, p |-> p]
+              R  == CleanBut(c, {rk})
+          IN R # {} /\ \E q2 \in Pick(FreePids(c) \ {q1}), r \in Pick(R) :
+               IF second THEN ExBatch(<< BItem(c, q1, Leo(c), Seq1(r), m, 0), BItem(c, q2, Leo(c) + 1, Seq1(rk), m, 0) >>)
+               ELSE ExBatch(<< BItem(c, q1, Leo(c), Seq1(rk), m, 0), BItem(c, q2, Leo(c), Seq1(r), m, 0) >>)
+
+\* ---- focus "cancel": the first validating append after a reopen is cancelled part-way (C08)
+(* CancelAppend(c, mode, recs): the caller's context is cancelled while the append validates.
+   The harness makes the call with a context that reports Canceled from its k-th Err() poll on,
+   for k = 0, 1, 2, ... until the call is no longer cancelled: this visits every point at which
+   the code consults the context, in particular every point between two scanned keys of the
+   membership-filter rebuild.  A cancelled call fails and changes nothing (nothing durable, and
+   the filter must not be left flagged as loaded while it covers only a prefix of the stored
+   keys: fl / fk are as before or completely rebuilt, which no reply can tell apart).  The
+   last call of the sweep is an ordinary append; its reply and effect are the step's. *)
+CancelAppend(c, mode, recs) ==
+  /\ Usable(c)
+  /\ mode \in {"strict", "alloc"}
+  /\ recs # <<>>
+  /\ EnvOK(c, mode, recs)
+  /\ Leo(c) + Len(recs) <= MaxSeq
+  /\ LET exp  == Leo(c) + 1
+         v    == Validate(c, mode, recs, exp)
+         E(r) == [a |-> "CancelAppend", c |-> c, mode |-> mode, recs |-> recs, res |-> r]
+     IN IF v.err # ""
+          THEN /\ ev' = E(AppRes(v.err, 0, 0))
+               /\ mem' = [mem EXCEPT ![c].fl = v.fl, ![c].fk = v.fk]
+               /\ UNCHANGED durable
+          ELSE /\ Stage(c, recs, exp)
+               /\ mem' = [mem EXCEPT ![c].fl = v.fl, ![c].fk = v.fk, ![c].leo = exp + Len(recs) - 1]
+               /\ ev' = E(AppRes("", exp, Len(recs)))
+               /\ UNCHANGED <<ret, ckpt>>
+  /\ UNCHANGED <<open, dbOpen, cfg>>
+  /\ KeepX
+
+\* the channel of the script: the one whose lease the first step opened
+CancelCh  == hist[2].ev.c
+KeySeqs(c) == SetToSortSeq({s \in RowSeqs(c) : HasKey(rows[c][s])}, <)
+CleanKeyed(c) == {r \in CleanRecs(c) : HasKey(r)}
+
+\* the scripted step n (n = Len(hist)); FALSE where the script has nothing to do in this state
+CancelOps(n) ==
+  IF n = 1 THEN \E c \in Pick(Chans) : XOpenLease(c)
+  ELSE LET c == CancelCh IN
+    CASE n \in 2..4 -> \* keyed rows, any mode
+           Usable(c) /\ CleanKeyed(c) # {} /\
+           \E r \in Pick(CleanKeyed(c)), m \in Pick(Modes) : XAppend(c, m, 0, Seq1(r))
+      [] n = 5 -> XCloseDB
+      [] n = 6 -> XOpenDB
+      [] n = 7 -> XOpenLease(c)
+      [] n = 8 -> \* the cancelled append: a keyed record that is not stored
+           Usable(c) /\ CleanKeyed(c) # {} /\
+           \E r \in Pick(CleanKeyed(c)), m \in Pick({"strict", "alloc"}) : CancelAppend(c, m, Seq1(r))
+      [] n \in 9..12 -> \* a duplicate of the (n - 8)-th stored key under a fresh id
+           Usable(c) /\ Fresh # {} /\ n - 8 <= Len(KeySeqs(c)) /\
+           \E id \in Pick(Fresh), m \in Pick({"strict", "alloc"}), p \in Pick(Pays) :
+              LET k == rows[c][KeySeqs(c)[n - 8]]
+              IN XAppend(c, m, 0, Seq1([id |-> id, from |-> k.from, no |-> k.no, p |-> p]))
+      [] OTHER -> FALSE
+
+\* is the scripted step n possible in this state?  (otherwise an ordinary step is taken)
+CancelReady(n) ==
+  IF n = 1 THEN TRUE
+  ELSE LET c == CancelCh IN
+    CASE n \in {2, 3, 4, 8} -> Usable(c) /\ CleanKeyed(c) # {}
+      [] n = 5 -> dbOpen
+      [] n = 6 -> ~dbOpen
+      [] n = 7 -> dbOpen /\ open[c] < MaxOpen
+      [] n \in 9..12 -> Usable(c) /\ Fresh # {} /\ n - 8 <= Len(KeySeqs(c))
+      [] OTHER -> FALSE
+
 SimStep ==
   \/ Leases /\ KeepX
   \/ Thin(4) /\ Appends /\ KeepX
@@ -227,6 +387,7 @@ SimStep ==
   \/ Thin(3) /\ Retention /\ KeepX
   \/ Thin(6) /\ Ckpts /\ KeepX
   \/ Compat /\ (Exact \/ RandomElement(1..3) = 1) /\ ExactOps
+  \/ Compat /\ (Exact \/ RandomElement(1..4) = 1) /\ BatchOps
 
 \* TLC evaluates the invariant on every candidate successor.  After Depth steps the only
 \* successor is a stuttering "end" marker, so each simulated trace prints exactly once.
@@ -234,7 +395,8 @@ SimStep ==
 \* behaviour is printed (TLCEval: evaluate once, eagerly; lazily it is 60x slower).
 SimNext ==
   IF Len(hist) <= Depth
-    THEN SimStep /\ hist' = Append(hist, [ev |-> ev', st |-> CurX']) /\ UNCHANGED focus
+    THEN (IF focus = "cancel" /\ Len(hist) <= 12 /\ CancelReady(Len(hist)) THEN CancelOps(Len(hist)) ELSE SimStep)
+         /\ hist' = Append(hist, [ev |-> ev', st |-> CurX']) /\ UNCHANGED focus
     ELSE UNCHANGED xvars /\ UNCHANGED focus /\ hist' = Append(hist, [ev |-> [a |-> "End"], st |-> 0])
 Emit == Len(hist) = Depth + 2 =>
           PrintT("BEH " \o ToJson([steps |-> [i \in 1..(Depth + 1) |-> TLCEval([ev |-> hist[i].ev, st |-> TLCEval(ProjSX(TLCEval(hist[i].st)))])]]))
